@@ -104,8 +104,11 @@ def spatialStep (st : Option (Scene Float)) (tok : List String) : Option (Option
         | .ok _ => "def"
         | .error .clampMinGtMax => "def"
         | .error (.nonFinite _) => "undef"
+      -- since the renderer replaces NaN by silence before the clamp, an undefined (NaN) level is no longer
+      -- visible in the device samples: the flag printed by the harness is "both samples finite"
+      let _ := dflag
       match sc.callback 1 with
-      | .ok r => pure (st, s!"{showFrames r.out} {dflag}")
+      | .ok r => pure (st, s!"{showFrames r.out} {if r.out.all (fun f => f.left.isFinite && f.right.isFinite) then "def" else "undef"}")
       | .error e => pure (st, s!"fault {e.name}")
   | _ =>
     match st with
